@@ -47,6 +47,8 @@ extern "C" void harness(void) {
         else if (op == 5) { ASSUME(aAlive && c2 == 0); c2 = new ConnRef(router, ConnEnd(A, 1), ConnEnd(Point(0, 90))); }
         else { ASSUME(c1Alive); double nx = verif_coord(140, 160); double ny = verif_coord(0, 80); c1->setDestEndpoint(ConnEnd(Point(nx, ny))); }
     }
+    // optionally process whatever is queued before tearing down (otherwise the router is destroyed with queued actions)
+    if (verif_choice(2)) router->processTransaction();
     if (c1Alive) verif_out_int((int)c1->displayRoute().size());
     WITNESS_POINT();
     delete router;
